@@ -29,7 +29,10 @@ import (
 	"strings"
 	"sync"
 
+	jose "github.com/go-jose/go-jose/v4"
+
 	"verif/internal/ev"
+	"verif/internal/keys"
 	"verif/internal/mon"
 	"verif/internal/opdrv"
 	"verif/internal/vstore"
@@ -53,6 +56,9 @@ func Run(run *ev.Run) {
 	for _, rn := range opdrv.RouterNames {
 		mand = append(mand, "http:flow-code-exchange:"+rn, "http:parse-error-branch:"+rn, "http:fuzzed-token-success:"+rn, "http:dynamic-issuer-hostile-host:"+rn,
 			"http:unrouted-404:"+rn, "http:typed-field-error:"+rn)
+		for _, e := range endpointNames {
+			mand = append(mand, "http:endpoint-served:"+e+":"+rn)
+		}
 		for _, g := range []string{"authorization_code", "refresh_token", "client_credentials", "jwt-bearer", "token-exchange", "device_code"} {
 			mand = append(mand, "http:grant-reached-storage:"+g+":"+rn)
 		}
@@ -93,6 +99,7 @@ func Run(run *ev.Run) {
 		return
 	}
 
+	warmKeys()
 	n := run.N(500, 12500)
 	ev.Parallel(n, 0, func(worker, i int) {
 		runCase(run, fl, worker, i, opdrv.RouterProvider)
@@ -133,6 +140,20 @@ func runCase(run *ev.Run, fl *inflight, worker, caseIdx, router int) {
 		// panics inside handlers are caught by opdrv.Serve; what arrives here blew up in the generator or oracle
 		run.HarnessBug(fmt.Sprintf("fronthttp: case %d router %s: %s at %s\n%s", caseIdx, x.rname, pi.Value, pi.Frame, trim(pi.Stack, 3000)))
 	}
+}
+
+// warmKeys generates the RSA keys every world uses once (in parallel), instead of 16 workers racing to generate
+// each of them at the start.
+func warmKeys() {
+	var wg sync.WaitGroup
+	for _, f := range []func(){
+		func() { keys.Get("op-sig-1", jose.RS256) }, func() { keys.Get("op-sig-es", jose.ES256) },
+		func() { opdrv.ClientKey("jwt") }, func() { opdrv.ClientKey("svc") }, func() { opdrv.ClientKey("all") },
+	} {
+		wg.Add(1)
+		go func() { defer wg.Done(); f() }()
+	}
+	wg.Wait()
 }
 
 func trim(s string, n int) string {
@@ -260,7 +281,7 @@ func (x *world) judge(q *Req, router int, resp *opdrv.Resp) {
 			wit[k] = v
 		}
 		if run.Violation(keyPrefix+class, int64(x.caseIdx), what, wit) {
-			run.SampleKind("http:violation:"+class, map[string]any{"router": rn, "request": q, "response": litResp(resp), "what": what})
+			run.SampleKind("http:violation:"+strings.SplitN(class, ":", 2)[0], map[string]any{"router": rn, "request": q, "response": litResp(resp), "what": what})
 		}
 	}
 
@@ -272,11 +293,35 @@ func (x *world) judge(q *Req, router int, resp *opdrv.Resp) {
 	}
 	run.Count("http:requests", kind+":"+rn)
 	run.Count("http:op", q.Op)
+	run.Count("http:route_x_method:"+rn, endpoint+"|"+q.Method)
 	for _, m := range q.Muts {
 		run.Count("http:mutation", mutBucket(m))
 	}
 	for _, e := range journal {
 		run.Count("http:storage_calls", e.Method)
+	}
+
+	// ----- 3. nothing of the grant logic after an error answer (also judged when the handler panicked later) -----
+	afterError := func() {
+		if resp.FirstWriteSeq == 0 {
+			return
+		}
+		errResp := isErrorResponse(resp)
+		for _, e := range journal {
+			if e.Seq <= resp.FirstWriteSeq {
+				continue
+			}
+			if e.Mutating() {
+				if errResp {
+					violate("mutation-after-error:"+endpoint+":"+e.Method, fmt.Sprintf("%s router: %s journaled the mutating storage call %s after it had started the error response %d", rn, endpoint, e.Method, resp.Status),
+						map[string]any{"first_write_seq": resp.FirstWriteSeq, "offending_call": e})
+				} else {
+					run.Count("http:grey", "mutating call after first byte of a success response:"+e.Method)
+				}
+			} else if errResp {
+				run.Count("http:grey", "non-mutating storage call after first byte of an error response:"+e.Method)
+			}
+		}
 	}
 
 	// ----- 1. no panic -----
@@ -293,6 +338,7 @@ func (x *world) judge(q *Req, router int, resp *opdrv.Resp) {
 			run.HarnessBug(fmt.Sprintf("fronthttp: harness panicked while serving %s: %s at %s\n%s", q.brief(), pi.Value, pi.Frame, trim(pi.Stack, 2500)))
 			return
 		}
+		afterError()
 		written := "nothing had been written"
 		if resp.Status != 0 {
 			written = fmt.Sprintf("after it had already answered %d %s", resp.Status, strings.TrimSpace(trim(resp.Body.String(), 200)))
@@ -353,25 +399,7 @@ func (x *world) judge(q *Req, router int, resp *opdrv.Resp) {
 		violate("invalid-status:"+endpoint, fmt.Sprintf("%s router: %s wrote the invalid status %d", rn, endpoint, status), nil)
 	}
 
-	// ----- 3. nothing of the grant logic after an error answer -----
-	errResp := isErrorResponse(resp)
-	if resp.FirstWriteSeq != 0 {
-		for _, e := range journal {
-			if e.Seq <= resp.FirstWriteSeq {
-				continue
-			}
-			if e.Mutating() {
-				if errResp {
-					violate("mutation-after-error:"+endpoint+":"+e.Method, fmt.Sprintf("%s router: %s journaled the mutating storage call %s after it had started the error response %d", rn, endpoint, e.Method, status),
-						map[string]any{"first_write_seq": resp.FirstWriteSeq, "offending_call": e})
-				} else {
-					run.Count("http:grey", "mutating call after first byte of a success response:"+e.Method)
-				}
-			} else if errResp {
-				run.Count("http:grey", "non-mutating storage call after first byte of an error response:"+e.Method)
-			}
-		}
-	}
+	afterError()
 
 	// ----- evidence and mandatory scenarios -----
 	oerr, _ := doc["error"].(string)
@@ -390,18 +418,21 @@ func (x *world) judge(q *Req, router int, resp *opdrv.Resp) {
 		if strings.Contains(desc, marker) || (!isJSON && strings.Contains(string(body), marker)) {
 			run.Count("http:parse_error_branch", endpoint+":"+marker)
 			run.Observed("http:parse-error-branch:" + rn)
-			run.SampleKind("http:parse-error:"+rn, map[string]any{"router": rn, "request": q, "response": litResp(resp)})
+			run.SampleKind("http:parse-error", map[string]any{"router": rn, "request": q, "response": litResp(resp)})
 			if marker == "cannot parse auth request" || marker == "error decoding form" {
 				run.Observed("http:typed-field-error:" + rn)
 			}
 		}
+	}
+	if endpoint != "unrouted" && status != 404 && status != 405 {
+		run.Observed("http:endpoint-served:" + endpoint + ":" + rn)
 	}
 	if endpoint == "unrouted" && status == 404 {
 		run.Observed("http:unrouted-404:" + rn)
 	}
 	if x.v.IssuerMode != "static" && string(q.Host) != x.host {
 		run.Observed("http:dynamic-issuer-hostile-host:" + rn)
-		run.SampleKind("http:dynamic-issuer:"+rn, map[string]any{"router": rn, "issuer_mode": x.v.IssuerMode, "request": q, "response": litResp(resp)})
+		run.SampleKind("http:dynamic-issuer", map[string]any{"router": rn, "issuer_mode": x.v.IssuerMode, "request": q, "response": litResp(resp)})
 	}
 	if strings.HasPrefix(q.Op, "token:") && !q.Flow {
 		g := strings.TrimPrefix(q.Op, "token:")
@@ -418,7 +449,7 @@ func (x *world) judge(q *Req, router int, resp *opdrv.Resp) {
 		if status == 200 && endpoint == "token" {
 			run.Observed("http:fuzzed-token-success:" + rn)
 			run.Count("http:fuzzed_token_success", g+":"+rn)
-			run.SampleKind("http:fuzz-success:"+g, map[string]any{"router": rn, "request": q, "response": litResp(resp)})
+			run.SampleKind("http:fuzz-success", map[string]any{"router": rn, "request": q, "response": litResp(resp)})
 		}
 	}
 	if q.Flow && q.Op == "flow:exchange" && status == 200 {
